@@ -291,10 +291,19 @@ def _split(case):
     whole, e1 = call(tr.fit, data['y'], initialization=init, iterations=sum(case['parts']), **opts)
     cur = init
     e2 = ''
+    mutated = False
     for p in case['parts']:
+        before = _digest_obj(cur)
+        prev = cur
         cur, e2 = call(tr.fit, data['y'], initialization=cur, iterations=p, **opts)
+        # the initialisation (array or model object) is an input: it must come back unchanged
+        if _digest_obj(prev) != before:
+            mutated = True
         if cur is None:
             break
+    if mutated:
+        return [ml.twin_record('same', None, None, kind='cacgmm', exc='InputMutated', exc_clause='initialization_untouched',
+                               fp=f't=split;parts={case["parts"]};sam={case["sam"]};aligner={case["aligner"]}', key=f'split:{case["seed"]}')]
     fp = f't=split;parts={case["parts"]};sam={case["sam"]};aligner={case["aligner"]}'
     if whole is None or cur is None:
         return [ml.twin_record('same', None, None, kind='cacgmm', exc=e1 or e2, fp=fp, key=f'split:{case["seed"]}')]
